@@ -6,6 +6,7 @@ import (
 	"math/rand"
 	"sort"
 	"strings"
+	"sync"
 
 	"verif/harness/internal/drv"
 	"verif/harness/internal/dvc"
@@ -25,14 +26,19 @@ type inst struct {
 	g      *labelmodel.Geom
 	bs     [3]int
 	states map[string]*labelmodel.State
-	ever   map[uint64]bool   // every label seen at any version
+	ever   map[uint64]bool   // every label sent to or received from the server, at any version
+	resv   map[uint64]bool   // ids handed out by fresh() (they may never reach the server)
 	local  map[string]uint64 // largest label introduced by operations at exactly this node
 	lastOp map[string]string // kind of the last mutation applied at a node
 	dirty  map[string]int    // voxels whose body changed by the last mutation at a node
 	trace  []string
 	step   int
 	conf   string
-	quiesceBusy int
+	nviol  int
+	// entries[l] = versions at which an operation created a mapping entry for label l (merge, renumber,
+	// cleave, split-supervoxel, split); taint[v] = why index-derived views at v are known to be off
+	entries map[uint64]map[string]bool
+	taint   map[string]string
 }
 
 func (in *inst) url(v, path string) string { return "/api/node/" + v + "/" + in.name + "/" + path }
@@ -52,7 +58,25 @@ func (in *inst) witness(extra map[string]interface{}) map[string]interface{} {
 	return m
 }
 
+// one report per violation class and run; repeats are only counted
+var (
+	reportedMu sync.Mutex
+	reported   = map[string]int{}
+)
+
+func firstReport(key string) bool {
+	reportedMu.Lock()
+	defer reportedMu.Unlock()
+	reported[key]++
+	return reported[key] == 1
+}
+
 func (in *inst) viol(key, what string, extra map[string]interface{}) {
+	in.nviol++
+	if !firstReport(key) {
+		in.c.Count("violations_repeating_an_already_reported_class", 1)
+		return
+	}
 	in.c.Violation(key, fmt.Sprintf("[%s %s] %s; history: %s", in.tag, in.conf, what, drv.Trunc(strings.Join(in.trace, "; "), 1500)), in.witness(extra))
 }
 
@@ -80,6 +104,52 @@ func (in *inst) settle() error {
 	return nil
 }
 
+func (in *inst) entry(v string, labels ...uint64) {
+	for _, l := range labels {
+		if in.entries[l] == nil {
+			in.entries[l] = map[string]bool{}
+		}
+		in.entries[l][v] = true
+	}
+}
+
+// foreignMapped returns the labels among ls whose mapping entries all sit at versions that are not
+// ancestors of v (siblings, cousins, descendants of ancestors).
+func (in *inst) foreignMapped(v string, ls map[uint64]bool) []uint64 {
+	anc := in.h.D.Anc(v)
+	var out []uint64
+	for _, l := range sortedU64(ls) {
+		es := in.entries[l]
+		if len(es) == 0 {
+			continue
+		}
+		own := false
+		for ev := range es {
+			if anc[ev] {
+				own = true
+			}
+		}
+		if !own {
+			out = append(out, l)
+		}
+	}
+	return out
+}
+
+func distinct(vs ...[]uint64) map[uint64]bool {
+	m := map[uint64]bool{}
+	for _, v := range vs {
+		var last uint64
+		for _, l := range v {
+			if l != 0 && l != last {
+				m[l] = true
+				last = l
+			}
+		}
+	}
+	return m
+}
+
 func (in *inst) see(labels ...uint64) {
 	for _, l := range labels {
 		if l != 0 {
@@ -97,7 +167,7 @@ func (in *inst) bump(v string, labels ...uint64) {
 	in.see(labels...)
 }
 
-// fresh returns a label larger than anything seen so far in this instance.
+// fresh returns a label larger than anything seen or handed out so far in this instance.
 func (in *inst) fresh() uint64 {
 	var m uint64
 	for l := range in.ever {
@@ -105,10 +175,17 @@ func (in *inst) fresh() uint64 {
 			m = l
 		}
 	}
+	for l := range in.resv {
+		if l > m {
+			m = l
+		}
+	}
 	l := m + 1 + uint64(in.r.Intn(3))
-	in.ever[l] = true
+	in.resv[l] = true
 	return l
 }
+
+func (in *inst) neg() bool { return in.g.Org[0] < 0 || in.g.Org[1] < 0 || in.g.Org[2] < 0 }
 
 func coordStr(c [3]int) string { return fmt.Sprintf("%d_%d_%d", c[0], c[1], c[2]) }
 
